@@ -14,6 +14,10 @@ pub enum Edit {
     DoubleCount(usize),
     Reorder,
     OtherMsg,
+    /// the signed message starts with (1) / equals (2) the compressed accumulated key of the signers, (3) of a sub-set
+    KeyBoundMsg(u8),
+    /// signer i replaced by the negation of signer 0 in BOTH lists: a prefix sums to the identity, the whole does not
+    NegatedSigner(usize),
     MsgFlip(usize),
     MsgTrunc,
     MsgExt,
@@ -96,6 +100,13 @@ impl<C: Suite> Model for M07<C> {
                 a.push(Act::Edit(Edit::AddForeign));
                 a.push(Act::Edit(Edit::Reorder));
                 a.push(Act::Edit(Edit::OtherMsg));
+                for k in 1..=3u8 {
+                    a.push(Act::Edit(Edit::KeyBoundMsg(k)));
+                }
+                if *n >= 3 {
+                    a.push(Act::Edit(Edit::NegatedSigner(1)));
+                    a.push(Act::Edit(Edit::NegatedSigner(*n - 1)));
+                }
                 a.push(Act::Edit(Edit::MsgTrunc));
                 a.push(Act::Edit(Edit::MsgExt));
                 let bits = self.msg.len() * 8;
@@ -184,6 +195,44 @@ impl<C: Suite> Model for M07<C> {
                 let eq = pt(ms.as_raw_value()) == rf::enc(&rsum);
                 o.outcome(if eq { "sum:equal" } else { "sum:differs" });
                 o.expect(&format!("C07:multisig-is-group-sum:{}:{}", g, s.name()), eq, "reference point sum", "differs");
+                // edits that change what is SIGNED (the honest parties sign another message / another party signs)
+                let (ms, sigs_owned): (MultiSignature<C>, Vec<Signature<C>>) = match edit {
+                    Some(Edit::KeyBoundMsg(k)) => {
+                        let apk = Vec::<u8>::from(&MultiPublicKey::<C>::from_public_keys(&self.pks[..if *k == 3 { n - 1 } else { n }]));
+                        let m: Vec<u8> = if *k == 2 { apk.clone() } else { [apk.as_slice(), b" and a payload"].concat() };
+                        let sg: Vec<Signature<C>> = self.sks[..n].iter().map(|x| x.sign(lib_scheme(s), &m).unwrap()).collect();
+                        match MultiSignature::<C>::from_signatures(&sg) {
+                            Ok(x) => (x, sg),
+                            Err(e) => {
+                                o.expect(&format!("C07:accumulate-honest:{}:{}:key-bound-message", g, s.name()), false, "Ok", &e.to_string());
+                                return;
+                            }
+                        }
+                    }
+                    Some(Edit::NegatedSigner(i)) => {
+                        let neg = SecretKey::<C>(-self.sks[0].0);
+                        let mut sg: Vec<Signature<C>> = sigs.to_vec();
+                        sg[*i] = neg.sign(lib_scheme(s), &self.msg).unwrap();
+                        // bring the negated signer right behind signer 0
+                        sg.swap(1, *i);
+                        match MultiSignature::<C>::from_signatures(&sg) {
+                            Ok(x) => (x, sg),
+                            Err(e) => {
+                                o.expect(&format!("C07:accumulate-honest:{}:{}:negated-signer", g, s.name()), false, "Ok", &e.to_string());
+                                return;
+                            }
+                        }
+                    }
+                    _ => (ms, sigs.to_vec()),
+                };
+                let sigs = &sigs_owned[..];
+                if matches!(edit, Some(Edit::KeyBoundMsg(_)) | Some(Edit::NegatedSigner(_))) {
+                    let mut sum = SgP::<C>::identity();
+                    for x in sigs {
+                        sum += x.as_raw_value();
+                    }
+                    o.expect(&format!("C07:multisig-is-group-sum:{}:{}:{}", g, s.name(), cls_of(edit)), *ms.as_raw_value() == sum, "the plain sum of the parts", "differs");
+                }
                 let mut keys: Vec<PublicKey<C>> = self.pks[..n].to_vec();
                 let foreign = self.pks[self.pks.len() - 1];
                 let mut msg = self.msg.clone();
@@ -204,6 +253,16 @@ impl<C: Suite> Model for M07<C> {
                             want = true;
                         }
                         Edit::OtherMsg => msg = b"another message".to_vec(),
+                        Edit::KeyBoundMsg(k) => {
+                            let apk = Vec::<u8>::from(&MultiPublicKey::<C>::from_public_keys(&self.pks[..if k == 3 { n - 1 } else { n }]));
+                            msg = if k == 2 { apk.clone() } else { [apk.as_slice(), b" and a payload"].concat() };
+                            want = true;
+                        }
+                        Edit::NegatedSigner(i) => {
+                            keys[i] = SecretKey::<C>(-self.sks[0].0).public_key();
+                            keys.swap(1, i);
+                            want = true;
+                        }
                         Edit::MsgFlip(b) => msg[b / 8] ^= 1 << (b % 8),
                         Edit::MsgTrunc => {
                             msg.pop();
